@@ -971,6 +971,7 @@ type stdCase struct {
 	kexs    []string // WithStandardTransportExtraKexs
 	drvOpen bool     // open through Driver.Open / GetPrompt / Driver.Close instead of the bare transport
 	shuffle uint64   // option order
+	multi   bool     // server policy key-then-password (partial success) instead of independent acceptance
 	cfgEvil bool     // real: an ssh config file that tries to override port, user, strict checking and known hosts
 	user    string
 	pw      string
@@ -1042,7 +1043,9 @@ func genStd(seed uint64, cell int) *stdCase {
 		k.keyKind = 5
 	}
 	k.cfgEvil = r2.Chance(1, 3)
+	k.multi = r2.Chance(1, 6)
 	if cell >= 0 {
+		k.multi = false
 		// the design's base matrix {strict,not} x {has key, another key, empty, absent} x {password, key, both},
 		// server accepting the configured credentials
 		k.strict = cell%2 == 0
@@ -1088,6 +1091,7 @@ func (k *stdCase) accept(e *c14env) func(sim.SSHAuthEvent) bool {
 
 type srvObs struct {
 	port            int
+	authStarted     bool // the client got past the host key and asked to authenticate ("none" seen)
 	tcp, handshakes int
 	events          []sim.SSHAuthEvent
 	estUser, estM   string
@@ -1098,6 +1102,7 @@ type srvObs struct {
 func observe(s *sim.SSHServer) (o srvObs) {
 	s.Snapshot(func() {
 		o.port = s.Port
+		o.authStarted = len(s.Methods) > 0
 		o.tcp, o.handshakes = s.TCPConns, s.Handshakes
 		o.events = append(o.events, s.Events...)
 		o.estUser, o.estM = s.EstUser, s.EstMethod
@@ -1286,7 +1291,7 @@ func stdOpen(e *c14env, k *stdCase, srv *sim.SSHServer, khPath string, khNow khK
 	r.leanWith = func(kh string) string {
 		return fmt.Sprintf("%s %d %s %s %d %s %s %s %s %s %s %s %s %s",
 			hexs(k.host), port, hexs(k.user), hexs(pw), int64(10*time.Second), b01(k.strict), hexs(keyPath), hexs(kh),
-			khLoads, b01(keyLoads), khNow.verdict(), b01(k.accKey), b01(k.accPw), b01(k.accKbd))
+			khLoads, b01(keyLoads), khNow.verdict(), b01(k.accKey), b01(k.accPw), map[bool]string{false: b01(k.accKbd), true: "multi"}[k.multi])
 	}
 	return r
 }
@@ -1455,6 +1460,72 @@ func evalStd(c *ctx, e *c14env, r *stdRun, model, newErrWant, inchan string) {
 			res.Fail("oracle", line, fmt.Sprintf("%sserver was offered %s %q for user %q; configured user=%q key=%q password-set=%v", r.what, ev.Method, ev.Cred, ev.User, k.user, r.keyPath, k.usePw), "c14-std-"+r.sig+"unconfigured-credential")
 		}
 	}
+	// --- oracle: the configured identity is the one used (independent of the model). Once the client is
+	// past the host key, every configured credential is offered, the key before the password, until the
+	// server accepts one; the connection succeeds iff the server accepts a configured credential, and with
+	// the key whenever the server accepts the key.
+	if o.authStarted {
+		type cred struct {
+			show string
+			ok   bool
+		}
+		var conf []cred
+		if r.keyPath != "" {
+			conf = append(conf, cred{"pk:client-key", k.accKey})
+		}
+		if k.usePw {
+			conf = append(conf, cred{"pw:" + hexs(k.pw), k.accPw}, cred{"ki:" + hexs(k.pw), k.accKbd})
+		}
+		var want []string
+		wantBy := ""
+		if k.multi {
+			// only publickey at first; a good key is a partial success, then only password
+			if r.keyPath != "" {
+				want = append(want, "pk:client-key")
+				if k.accKey && k.usePw {
+					want = append(want, "pw:"+hexs(k.pw))
+					if k.accPw {
+						wantBy = "pw:" + hexs(k.pw)
+					}
+				}
+			}
+		} else {
+			for _, cr := range conf {
+				want = append(want, cr.show)
+				if cr.ok {
+					wantBy = cr.show
+					break
+				}
+			}
+		}
+		wantAttS := "."
+		if len(want) > 0 {
+			wantAttS = strings.Join(want, ";")
+		}
+		policy := fmt.Sprintf("server accepts key=%v password=%v keyboard-interactive=%v two-step=%v; configured key=%v password=%v", k.accKey, k.accPw, k.accKbd, k.multi, r.keyPath != "", k.usePw)
+		if gotAtt != wantAttS {
+			sig := "identity-offered-differs"
+			if r.keyPath != "" && !strings.Contains(gotAtt, "pk:client-key") {
+				sig = "identity-key-not-offered"
+			}
+			res.Fail("oracle", line, fmt.Sprintf("%scredentials offered %s, demanded %s (%s)", r.what, gotAtt, wantAttS, policy), "c14-std-"+r.sig+sig)
+		}
+		gotBy := ""
+		if r.openErr == nil {
+			gotBy = "(no credential)"
+			if n := len(o.events); n > 0 {
+				gotBy = e.showEvents(o.events[n-1:])
+			}
+		}
+		switch {
+		case wantBy != "" && gotBy == "":
+			res.Fail("oracle", line, fmt.Sprintf("%sthe server accepts a configured credential (%s), yet the connection failed: %s (%s)", r.what, wantBy, got, policy), "c14-std-"+r.sig+"identity-refused")
+		case wantBy == "" && gotBy != "":
+			res.Fail("oracle", line, fmt.Sprintf("%sestablished by %s although the server accepts none of the configured credentials (%s)", r.what, gotBy, policy), "c14-std-"+r.sig+"identity-unexpected-success")
+		case wantBy != gotBy:
+			res.Fail("oracle", line, fmt.Sprintf("%sestablished by %s, demanded by %s (%s)", r.what, gotBy, wantBy, policy), "c14-std-"+r.sig+"identity-wrong-credential")
+		}
+	}
 	// IsAlive must not claim a connection that was refused
 	if r.alive && o.handshakes == 0 {
 		res.Fail("oracle", line, fmt.Sprintf("%sIsAlive() is true although no connection was established (Open: %v)", r.what, r.openErr), "c14-std-"+r.sig+"alive-without-connection")
@@ -1511,6 +1582,7 @@ func c14Std(c *ctx, e *c14env, cells []int, seeds []uint64) {
 		k := genStd(seed, cells[i])
 		srv := sim.NewSSHServerOn(k.serverIP(), rngReader{vlib.NewRng(seed ^ 0x5eed)}, k.accept(e))
 		srv.Questions = k.nq
+		srv.KeyThenPassword = k.multi
 		var khPath string
 		os.Remove(homeKH)
 		if k.khMode == 2 {
@@ -1543,6 +1615,20 @@ func c14Std(c *ctx, e *c14env, cells []int, seeds []uint64) {
 		}
 		if r.k.keyKind == 5 {
 			res.Count("std passphrase-protected key")
+		}
+		{
+			k := r.k
+			cl := []string{"no key", "key", "key", "unusable key", "unusable key", "protected key"}[k.keyKind]
+			if k.usePw {
+				cl += " + password"
+			}
+			sv := "two-step key-then-password"
+			if !k.multi {
+				sv = fmt.Sprintf("accepts key=%v pw=%v ki=%v", k.accKey, k.accPw, k.accKbd)
+			} else {
+				sv += fmt.Sprintf(" key=%v pw=%v", k.accKey, k.accPw)
+			}
+			res.Count("std identity: client " + cl + " / server " + sv)
 		}
 		if model[i] != "bad-op" {
 			res.InDomain++
@@ -1588,6 +1674,7 @@ func c14Hist(c *ctx, e *c14env, seeds []uint64) {
 			k.keyKind = 1
 		}
 		k.accKey, k.accPw, k.accKbd, k.nq, k.netconf = true, true, true, 1, false
+		k.multi = false
 		k.khMode = 0
 		if k.host == "::1" {
 			k.host = "127.0.0.1"
@@ -1700,6 +1787,7 @@ func c14Real(c *ctx, e *c14env, cells []int, seeds []uint64) {
 			k.usePw = true
 		}
 		k.accKey, k.accPw, k.accKbd, k.nq, k.netconf = true, true, true, 1, false
+		k.multi = false
 		if k.user == "-v" || k.user == "user name" {
 			k.user = "bob"
 		}
